@@ -139,3 +139,9 @@ C10 = codec_check("C10", "C10", "model_checking",
 
 C13 = codec_check("C13", "C13", "model_checking", universes=("defaults", "defaults"),
     rule="defaults universe: 63 (field type, default literal) pairs placed directly, in a nested required record, in an included record, two include levels deep and only-in-include; per record every subset of defaulted positions supplied (with a non-default value) or omitted, decoded from reference documents by the JSON, ROR2 and untyped-value readers and compared with the reference parse of the schema literal; constructor instances; every ordered pair of independently obtained instances (constructor / JSON decode / ROR2 decode) is checked for aliasing by mutating the first in place; states = (record, subset), transitions = decode calls; a class is (reader | maker pair, outcome)")
+
+
+C06 = codec_check("C06", "C06", "model_checking",
+    rule="per schema with nested records (plus three flat representatives) the rich value is encoded by the reference encoders with every enumerated subset of record-field positions deleted (or JSON-nulled), in several key orders and with unknown fields injected, and decoded by the JSON, ROR2, query-parameter (QueryParamsReader.ReadRecord around the parameter) and untyped readers; the reported MissingRequiredFieldsError.Fields must equal the independently computed sorted set of full paths of absent required fields, and the partially decoded value must hold every present field; malformed leaves must raise a DeserializationError scoped at the leaf; states = schemas, transitions = decode calls; a class is (reader, deletion count | outcome)",
+    assumptions=["the path syntax (a.b[1].c, map keys and union aliases as segments, query parameters prefixed by the parameter name) is the library's own API, taken from upstream's tests",
+                 "the lenient-client clause is checked at wire level (C02)"])
